@@ -874,10 +874,10 @@ def run(ctx):
     cmp_cases = [c for c in corpus if c["kind"] == "compare"]
     h_cases = [c for c in corpus if c["kind"] == "history"]
     ctx.count("corpus", len(corpus))
-    st_cases += [gen_status_case(rng) for _ in range(ctx.n(220, 3000))]
-    cmp_cases += [gen_compare_case(rng) for _ in range(ctx.n(120, 1500))]
+    st_cases += [gen_status_case(rng) for _ in range(ctx.n(220, 2000))]
+    cmp_cases += [gen_compare_case(rng) for _ in range(ctx.n(120, 1000))]
     max_ops = 10 if ctx.tier == "quick" else 30
-    for _ in range(ctx.n(70, 700)):
+    for _ in range(ctx.n(70, 600)):
         h_cases.append(gen_history_case(rng, max_ops, closed=rng.random() < 0.8))
 
     st_items, cmp_items, h_items = [], [], []
